@@ -128,14 +128,16 @@ type Event struct {
 }
 
 type Snapshot struct {
-	HasInst  bool
-	Round    specqbft.Round
-	Decided  bool
-	Value    []byte
-	Proposal bool
-	Root     [32]byte
-	Arms     int
-	Prepared specqbft.Round
+	HasInst   bool
+	Round     specqbft.Round
+	Decided   bool
+	Value     []byte
+	Proposal  bool
+	Root      [32]byte
+	Arms      int
+	Prepared  specqbft.Round
+	StateRoot [32]byte        // State.GetRoot(), only when Sim.WantRoots
+	Height    specqbft.Height // controller height
 }
 
 type Sim struct {
@@ -151,6 +153,7 @@ type Sim struct {
 	Log     []string
 	Events  []Event
 	// counters for class histograms
+	WantRoots     bool
 	ByzAccepted   int
 	MaxRound      specqbft.Round
 	LearntDecided int
@@ -199,9 +202,12 @@ func (s *Sim) Inst(id spectypes.OperatorID) *instance.Instance {
 
 func (s *Sim) Snap(id spectypes.OperatorID) Snapshot {
 	o := s.Ops[id]
-	sn := Snapshot{Arms: len(o.Timer.Arms)}
+	sn := Snapshot{Arms: len(o.Timer.Arms), Height: o.Ctrl.Height}
 	if inst := s.Inst(id); inst != nil {
 		st := inst.State
+		if s.WantRoots {
+			sn.StateRoot, _ = st.GetRoot()
+		}
 		sn.HasInst, sn.Round, sn.Decided, sn.Value, sn.Prepared = true, st.Round, st.Decided, st.DecidedValue, st.LastPreparedRound
 		if st.ProposalAcceptedForCurrentRound != nil {
 			sn.Proposal, sn.Root = true, st.ProposalAcceptedForCurrentRound.Message.Root
@@ -645,6 +651,44 @@ func (s *Sim) Step(op Op, onEvent func(*Event) bool) {
 		if m := s.AggregateCommits(specqbft.Round(op.Round), v, op.Mask); m != nil {
 			pm := s.add(0, true, m) // network-level artefact: anybody can aggregate
 			s.Logf("aggregate #%d [%s]", pm.Idx, Describe(m))
+		}
+	}
+}
+
+// FlushCorrect delivers every undelivered message of correct operators to every correct operator until
+// quiescent; order picks the delivery order of each batch (nil = pool order).
+func (s *Sim) FlushCorrect(order func([]*PoolMsg) []*PoolMsg, onEvent func(*Event) bool) int {
+	n := 0
+	for {
+		var batch []*PoolMsg
+		for _, pm := range s.Pool {
+			if pm.Byz {
+				continue
+			}
+			for _, id := range s.Correct {
+				if !pm.Delivered[id] {
+					batch = append(batch, pm)
+					break
+				}
+			}
+		}
+		if len(batch) == 0 {
+			return n
+		}
+		if order != nil {
+			batch = order(batch)
+		}
+		for _, pm := range batch {
+			for _, id := range s.Correct {
+				if pm.Delivered[id] {
+					continue
+				}
+				ev := s.Deliver(pm, id)
+				n++
+				if onEvent != nil && !onEvent(ev) {
+					return n
+				}
+			}
 		}
 	}
 }
